@@ -34,6 +34,58 @@ def cmp_under(test: ast.AST, a: str, b: str, order: str):
     return None
 
 
+def _top_normalised(fn):
+    """two representations of the open blocks are in use: a stack of indent *increments* with a running current level, or a stack of the block *columns* whose top is the current
+    level.  For the second one `indents[-1] if indents else 0` (and `indents and indents[-1] > x`, `indents[-1]` under a non-empty test) IS the current level: rewrite it to the
+    name the clauses are stated over.  Returns (function copy, 'increments' | 'absolute')."""
+    import copy as _copy
+    S, CUR = "indents", "curr_level"
+
+    def is_top(e):
+        return isinstance(e, ast.Subscript) and isinstance(e.value, ast.Name) and e.value.id == S and norm(e.slice) in ("-1", "len(indents) - 1")
+    has_abs = any(isinstance(n, ast.IfExp) and isinstance(n.test, ast.Name) and n.test.id == S and is_top(n.body) and isinstance(n.orelse, ast.Constant) and n.orelse.value == 0
+                  for n in ast.walk(fn))
+    maintained = any(isinstance(n, ast.AugAssign) and norm(n.target) == CUR for n in ast.walk(fn))
+    if not has_abs or maintained:
+        return fn, "increments"
+
+    class T(ast.NodeTransformer):
+        def visit_IfExp(self, n):
+            self.generic_visit(n)
+            if isinstance(n.test, ast.Name) and n.test.id == S and (is_top(n.body) or (isinstance(n.body, ast.Name) and n.body.id == CUR)) and isinstance(n.orelse, ast.Constant) and n.orelse.value == 0:
+                return ast.copy_location(ast.Name(id=CUR, ctx=ast.Load()), n)
+            return n
+
+        def visit_BoolOp(self, n):
+            self.generic_visit(n)
+            if isinstance(n.op, ast.And) and any(isinstance(v, ast.Name) and v.id == S for v in n.values):
+                rest = [v for v in n.values if not (isinstance(v, ast.Name) and v.id == S)]
+                if rest and all(any(isinstance(x, ast.Name) and x.id == CUR for x in ast.walk(v)) for v in rest):
+                    # `indents and top > level`: with level >= 0 (refused before) top > level already implies a non-empty stack
+                    return rest[0] if len(rest) == 1 else ast.copy_location(ast.BoolOp(op=ast.And(), values=rest), n)
+            return n
+
+        def visit_Subscript(self, n):
+            self.generic_visit(n)
+            if is_top(n) and isinstance(n.ctx, ast.Load):
+                return ast.copy_location(ast.Name(id=CUR, ctx=ast.Load()), n)
+            return n
+    new = T().visit(_copy.deepcopy(fn))
+    # `curr_level = curr_level` left over from `curr_level = indents[-1] if indents else 0`
+    for parent in ast.walk(new):
+        for fld in ("body", "orelse", "finalbody"):
+            seq = getattr(parent, fld, None)
+            if isinstance(seq, list):
+                seq[:] = [st for st in seq if not (isinstance(st, ast.Assign) and norm(st.targets[0]) == CUR and norm(st.value) == CUR)] or ([ast.Pass()] if seq and isinstance(seq[0], ast.stmt) else seq)
+    ast.fix_missing_locations(new)
+    for node in ast.walk(new):
+        for ch in ast.iter_child_nodes(node):
+            ch._parent = node
+    from sa.canon import number_nodes
+    number_nodes(new)
+    return new, "absolute"
+
+
 def run(c):
     c.explanation = ("Shape of the offside parser decided on the AST of annlib/tabparser.py: the refusal tests of _stripped_indents are evaluated under the three possible orderings "
                      "of (curr_level, level) — the values are touched only through comparisons — the comment/blank filter and the '#'-at-column-0 reset are checked with guard "
@@ -55,6 +107,7 @@ def r1(c):
     m = repo.module(TAB)
     fn = repo.func(TAB, "_stripped_indents")
     c.count("functions")
+    fn, rep = _top_normalised(fn)
     gm = GuardMap(fn)
     ys = [n for n in walk_no_nested(fn) if isinstance(n, ast.Yield)]
     if len(ys) != 1:
@@ -86,7 +139,11 @@ def r1(c):
         ok = t_gt in (True, None) and t_eq is False and t_lt is False
         pops = [x for x in calls_in(w) if isinstance(x.func, ast.Attribute) and x.func.attr == "pop" and norm(x.func.value) == "indents"]
         dec = [n for n in walk_no_nested(w) if isinstance(n, ast.AugAssign) and isinstance(n.op, ast.Sub) and norm(n.target) == "curr_level"]
-        ok = ok and len(pops) == 1 and len(dec) == 1 and any(x is pops[0] for x in ast.walk(dec[0]))
+        if rep == "absolute":
+            # the stack holds the columns themselves: the current level is its top, a plain pop is the whole step
+            ok = ok and len(pops) == 1 and not dec and not pops[0].args
+        else:
+            ok = ok and len(pops) == 1 and len(dec) == 1 and any(x is pops[0] for x in ast.walk(dec[0]))
     c.check("C05.R1", ok, repo.loc(m, ded), "_stripped_indents/pop-loop", "the dedent loop does not pop exactly the pushed amounts while curr_level > level", key_text="pop-loop")
     after = [n for n in ded.body if isinstance(n, ast.If) and loops and ordk(n) > ordk(loops[0]) and any(isinstance(x, ast.Raise) for x in ast.walk(n))]
     ok = len(after) == 1
@@ -101,7 +158,7 @@ def r1(c):
             key_text="refusal")
     push = [x for x in calls_in(arms) if isinstance(x.func, ast.Attribute) and x.func.attr == "append" and norm(x.func.value) == "indents"
             and not any(x is y_ for y_ in ast.walk(ded))]
-    ok = len(push) == 1 and norm(push[0].args[0]).replace(" ", "") == "level-curr_level"
+    ok = len(push) == 1 and norm(push[0].args[0]).replace(" ", "") == ("level" if rep == "absolute" else "level-curr_level")
     c.check("C05.R1", ok, repo.loc(m, arms), "_stripped_indents/push", "the indent arm does not push level - curr_level", key_text="push")
     ok = isinstance(y.value, ast.Tuple) and norm(y.value.elts[0]) == "len(indents)" and any("isinstance(line, str)" in a for a in G.atoms(f))
     c.check("C05.R1", ok, repo.loc(m, y), "_stripped_indents/yield", "the depth yielded is not len(indents), or non-string markers are yielded as rows", key_text="yield")
@@ -116,7 +173,7 @@ def r1(c):
             "a line indented less than the first line re-bases the block instead of being refused (the level < 0 test can no longer fire)", key_text="base-offset")
     resets = [n for n in walk_no_nested(fn) if isinstance(n, ast.Assign) and norm(n.targets[0]) in ("indents", "curr_level", "g_level") and gm.conds[id(n)]
               and G.implies(gm.formula(n, G.GuardEnv(rename=lambda s_: "is_end" if s_ in ("line is BlockEnd", "BlockEnd is line") else s_)), G.Atom("is_end"))]
-    c.check("C05.R1", {norm(n.targets[0]) for n in resets} == {"indents", "curr_level", "g_level"}, repo.loc(m, fn), "_stripped_indents/reset-on-BlockEnd", "the indent stack, current level and base offset are not all reset at a section break", key_text="reset")
+    c.check("C05.R1", {norm(n.targets[0]) for n in resets} == ({"indents", "g_level"} if rep == "absolute" else {"indents", "curr_level", "g_level"}), repo.loc(m, fn), "_stripped_indents/reset-on-BlockEnd", "the indent stack, current level and base offset are not all reset at a section break", key_text="reset")
 
 
 def r2(c):
